@@ -89,7 +89,48 @@ def interval_table(fn, numeric):
 
 
 RANGE_CALL = call(r"BTreeMap::<.*>::range::<", name="BTreeMap::range")
+def numeric_parse_mirror(F):
+    """parse_indexable_numeric must accept exactly what the reference matcher's numeric test accepts: `str::parse::<f64>()`
+    of the unmodified value, and nothing decided before or after it (the function's own comment: 'must mirror
+    metadata_filter::matches_range')."""
+    from vlib import mirdec as MD
+    from vlib.mirflow import origin as _o
+    import vlib.mir as _M
+    f = "hnsw_backend::parse_indexable_numeric"
+    OKC = call(r"= Result::<f64, (core::num::dec2flt::|std::num::)?ParseFloatError>::ok\(", name="parse::<f64>().ok()")
+    out = MD.decides(F, f, "entry", {"answer": OKC}, [], {"answer": "true"},
+                     what="parse_indexable_numeric answers with value.parse::<f64>().ok() on every path (no value is classified before the parse)")
+    fc = FnCheck(F, f)
+    if fc.fn is not None:
+        fn = fc.fn
+        for b in fn.blocks.values():
+            if not b.cleanup and OKC.match_block(fn, b):
+                src = _o(fn, b.args)
+                ok = bool(re.match(r"^call core::str::<impl str>::parse::<f64>$", src))
+                out.append(Result("holds" if ok else "violated", "answer = str::parse::<f64>(value).ok()" if ok else "parse_indexable_numeric answers with `%s`, expected str::parse::<f64>(value).ok()" % src[:120],
+                                  sample={"fn": fc.name, "kind": "PROVENANCE", "value": src[:120]}))
+            if not b.cleanup and b.kind == "call" and re.search(r"impl str>::parse::<f64>$", (b.callee or "")):
+                a = _o(fn, b.args)
+                ok = bool(re.match(r"^arg\(_1: &str\)$", a))
+                out.append(Result("holds" if ok else "violated", "the parsed text is the value itself" if ok else "parse_indexable_numeric parses `%s` instead of the value itself (the matcher parses the raw value)" % a[:100],
+                                  sample={"fn": fc.name, "kind": "PROVENANCE", "parsed": a[:100]}))
+        # no other way to produce the answer
+        others = [s_ for b in fn.blocks.values() if not b.cleanup for s_ in b.stmts if s_.startswith("_0 = ")]
+        if others:
+            out.append(Result("violated", "parse_indexable_numeric also answers without parsing: `%s`" % others[0][:100], sample={"fn": fc.name, "kind": "COUNT", "direct_answers": len(others)}))
+    # the reference matcher takes its numeric branch iff both texts parse
+    m = "metadata_filter::matches_range"
+    fm = FnCheck(F, m)
+    if fm.fn is not None:
+        n = fm.count(call(r"= core::str::<impl str>::parse::<f64>\(", name="parse::<f64>"))
+        out.append(Result("holds" if n == 2 else "violated", "matches_range parses value and bound with str::parse::<f64>" if n == 2 else "matches_range makes %d parse::<f64> calls, expected 2 (value and bound)" % n,
+                          sample={"fn": fm.name, "kind": "COUNT", "parse_calls": n}))
+    return out
+
+
 MOS = [
+    MO("O11.6/numeric_parse_mirror", "parse_indexable_numeric == str::parse::<f64>(value).ok() on every path (what the reference matcher uses to decide 'numeric'), and nothing else classifies a value",
+       numeric_parse_mirror, functions=[("hnsw_backend.rs", "parse_indexable_numeric"), ("metadata_filter.rs", "matches_range")]),
     MO("O11.5/numeric", "bitmap_for_range_numeric: Gte->[k,inf) Lte->(-inf,k] Gt->(k,inf) Lt->(-inf,k) with k = OrderedF64::from_f64(bound); NaN bound returns before any range call",
        allof(interval_table(MI + "bitmap_for_range_numeric", True),
              only_via(MI + "bitmap_for_range_numeric", RANGE_CALL, Arm(r"^call core::f64::<impl f64>::is_nan$", {"0"}, name="bound is not NaN"))),
